@@ -1,4 +1,358 @@
+//! C16 — CAM16 appearance correlates round-trip and are mutually consistent.
+//!
+//! Space (exhaustive product, no sampling): viewing conditions (L_A × Y_b × surround × discounting ×
+//! white point, static and dynamic) × an XYZ lattice in and around the sRGB gamut × {f32, f64};
+//! at every point all seven CAM16 types (Cam16 + six partials) and the CAM16-UCS forms are driven
+//! through palette's public API and compared with an independent f64 reference (oracle.rs).
+//!
+//! Units (read from cam16/parameters.rs and math.rs): palette's XYZ and white point have Y = 1 for
+//! white (multiplied by 100 internally), `background_luminance` is relative to white = 1
+//! (n = Y_b/Y_w), `adapting_luminance` is in cd/m², `Surround::Percent` runs from 0 % (dark) over
+//! 10 % (dim) to 20 % (average) and is clamped, `Discounting::Custom` is clamped to [0, 1].
+mod checks;
+mod oracle;
+mod subject;
+
+use checks::{Local, Pt, Sub, NSUB, SUBS};
+use oracle::{Cond64, Disc, Sur};
+use pv::fl::Fl;
+use pv::{json, Collector, Ctx, Mode, Tier, Value};
+use subject::{Cam, WpSel, WPS};
+
+type Colour = ([f64; 3], &'static str);
+
+/// XYZ lattice (white Y = 1), simplest first. Classes: black, in-srgb, near-black, outside-srgb, xyz-cube.
+fn colours(tier: Tier) -> Vec<Colour> {
+    // quick: 9 levels per channel (k/8); thorough: 17 levels (k/16)
+    let n: usize = tier.pick(8, 16);
+    let srgb = pv::refmodel::rgb::SRGB;
+    let lin = pv::refmodel::rgb::LIN_SRGB;
+    let mut v: Vec<Colour> = vec![];
+    // images of the 9³ (thorough: 17³) encoded sRGB grid (contains black, white, the primaries and secondaries)
+    for r in 0..=n {
+        for g in 0..=n {
+            for b in 0..=n {
+                let x = srgb.to_xyz([r as f64 / n as f64, g as f64 / n as f64, b as f64 / n as f64]);
+                v.push((x, if r + g + b == 0 { "black" } else { "in-srgb" }));
+            }
+        }
+    }
+    // near-black: 1e-9 of white and of each primary
+    for p in [[1e-9, 1e-9, 1e-9], [1e-9, 0.0, 0.0], [0.0, 1e-9, 0.0], [0.0, 0.0, 1e-9]] {
+        v.push((lin.to_xyz(p), "near-black"));
+    }
+    // around the gamut: linear sRGB with components below 0 / above 1 (wide-gamut and over-range colours)
+    let l = [-0.2, 0.0, 0.5, 1.2];
+    for r in l {
+        for g in l {
+            for b in l {
+                if [r, g, b].iter().any(|c| *c < 0.0 || *c > 1.0) {
+                    v.push((lin.to_xyz([r, g, b]), "outside-srgb"));
+                }
+            }
+        }
+    }
+    // the Rec. 2020 primaries (real colours outside sRGB)
+    for p in [[1.0, 0.0, 0.0], [0.0, 1.0, 0.0], [0.0, 0.0, 1.0]] {
+        v.push((pv::refmodel::rgb::LIN_REC2020.to_xyz(p), "outside-srgb"));
+    }
+    // the XYZ cube [0, 1.2]³ (contains imaginary stimuli: negative cone responses, and points
+    // outside the real-valued domain of the model, which are classified by the reference)
+    let l = [0.0, 0.3, 0.6, 0.9, 1.2];
+    for x in l {
+        for y in l {
+            for z in l {
+                if x + y + z > 0.0 {
+                    v.push(([x, y, z], "xyz-cube"));
+                }
+            }
+        }
+    }
+    v
+}
+
+#[derive(Clone, Copy, Debug)]
+struct CondSpec {
+    la: f64,
+    yb: f64,
+    sur: Sur,
+    disc: Disc,
+    sel: WpSel,
+}
+
+struct Axes {
+    la: Vec<f64>,
+    yb: Vec<f64>,
+    sur: Vec<Sur>,
+    disc: Vec<Disc>,
+}
+
+fn axes(tier: Tier) -> Axes {
+    // both lerp segments of the surround (0-10 %, 10-20 %) with their three ends
+    let sur8 = vec![Sur::Average, Sur::Dim, Sur::Dark, Sur::Percent(0.0), Sur::Percent(5.0), Sur::Percent(10.0), Sur::Percent(15.0), Sur::Percent(20.0)];
+    match tier {
+        Tier::Quick => Axes { la: vec![40.0, 0.2, 318.0, 1000.0], yb: vec![0.2, 0.05, 0.9], sur: sur8, disc: vec![Disc::Auto, Disc::Custom(0.5), Disc::Custom(1.5)] },
+        Tier::Thorough => {
+            let mut sur = sur8;
+            // off-centre points of both segments and the documented clamp at both ends
+            sur.extend([Sur::Percent(2.5), Sur::Percent(12.5), Sur::Percent(-5.0), Sur::Percent(25.0)]);
+            Axes { la: vec![40.0, 0.2, 4.0, 64.0, 318.0, 1000.0], yb: vec![0.2, 0.05, 0.5, 0.9], sur, disc: vec![Disc::Auto, Disc::Custom(0.0), Disc::Custom(0.5), Disc::Custom(1.0), Disc::Custom(1.5)] }
+        }
+    }
+}
+
+fn conditions(ax: &Axes) -> Vec<CondSpec> {
+    let mut v = vec![];
+    for &sel in &WPS {
+        for &la in &ax.la {
+            for &yb in &ax.yb {
+                for &sur in &ax.sur {
+                    for &disc in &ax.disc {
+                        v.push(CondSpec { la, yb, sur, disc, sel });
+                    }
+                }
+            }
+        }
+    }
+    v
+}
+
+/// The conditions as the component type sees them (parameters rounded to T once, here).
+fn cond_for<T: Fl>(s: &CondSpec) -> Cond64 {
+    let r = |x: f64| T::from64(x).to64();
+    Cond64 {
+        la: r(s.la),
+        yb: r(s.yb),
+        sur: match s.sur {
+            Sur::Percent(p) => Sur::Percent(r(p)),
+            o => o,
+        },
+        disc: match s.disc {
+            Disc::Custom(d) => Disc::Custom(r(d)),
+            o => o,
+        },
+        white: [0.0; 3],
+    }
+}
+
+/// Parameters::bake through the public API; a panic there is a violation of its own (replayable:
+/// the case is the black point under these conditions).
+fn make_subject<T: Cam>(spec: &CondSpec, cond: &Cond64, c: &mut Collector) -> Option<subject::Subject<T>> {
+    match pv::catch(|| T::subject(spec.sel, cond)) {
+        Ok(s) => Some(s),
+        Err(m) => {
+            c.violation(&format!("C16/panic/Parameters::bake/{}/{}", spec.sel.type_name(), T::NAME), 1.0, || {
+                let z = [T::from64(0.0); 3];
+                let refp = oracle::params(&Cond64 { white: [1.0; 3], ..*cond });
+                let mut j = checks::case_json("panic", &Pt { cond, sel: spec.sel, refp: &refp, x: z, class: "black" });
+                j["observed"] = json!({"panic": m});
+                j
+            });
+            None
+        }
+    }
+}
+
+/// One chunk: one set of viewing conditions, all colours + the adopted white.
+fn run_cond<T: Cam>(spec: &CondSpec, cols: &[Colour], enabled: [bool; NSUB], seed: u64) -> (Collector, Local) {
+    let mut c = Collector::new();
+    let mut l = Local::with_enabled(enabled);
+    let mut cond = cond_for::<T>(spec);
+    let Some(subj) = make_subject::<T>(spec, &cond, &mut c) else { return (c, l) };
+    cond.white = [subj.white[0].to64(), subj.white[1].to64(), subj.white[2].to64()];
+    let refp = oracle::params(&cond);
+    let mut seen = std::collections::BTreeSet::new();
+    for (x, class) in cols.iter().copied().chain(std::iter::once((cond.white, "adopted-white"))) {
+        let xt = if class == "adopted-white" { subj.white } else { [T::from64(x[0]), T::from64(x[1]), T::from64(x[2])] };
+        if !seen.insert((xt[0].bits64(), xt[1].bits64(), xt[2].bits64(), class == "adopted-white")) {
+            continue;
+        }
+        let pt = Pt { cond: &cond, sel: spec.sel, refp: &refp, x: xt, class };
+        checks::check_point(&pt, &subj, &mut c, &mut l, seed);
+    }
+    (c, l)
+}
+
+fn sub_enabled<T: Fl>(ctx: &Ctx) -> [bool; NSUB] {
+    let mut e = [false; NSUB];
+    for i in 0..NSUB {
+        e[i] = ctx.wants(&format!("{}/{}", SUBS[i], T::NAME));
+    }
+    e
+}
+
+fn bound_text(sub: Sub) -> &'static str {
+    match sub {
+        Sub::Roundtrip => "into_xyz(from_xyz(x)) vs x for Cam16 and the six partial types at every in-domain, non-black point of the space",
+        Sub::Black => "XYZ = 0 under every set of conditions: all attributes exactly 0, into_xyz exactly 0 through all seven types, into_full all 0",
+        Sub::PartialEq => "every point (also outside the model's domain, NaN-aware): P::from_xyz and P::from_full equal the corresponding fields of Cam16::from_xyz bit for bit, 6 partial types",
+        Sub::Baked => "every point: Cam16::from_xyz with un-baked Parameters equals the BakedParameters route bit for bit",
+        Sub::IntoFull => "P::into_full(P::from_xyz(x)) vs Cam16::from_xyz(x), five attributes relative + hue identical, 6 partial types, every in-domain point",
+        Sub::Interconvert => "all 36 ordered pairs (P1, P2): P2::from_full(P1.into_full()).into_full() vs P1.into_full() — J↔Q and C↔M↔s are mutually inverse — every in-domain point",
+        Sub::Forward => "Cam16::from_xyz vs the independent f64 reference (Li et al. 2017, offset form): J, Q, C·e^{ih}, M·e^{ih}, s² at every in-domain point",
+        Sub::Ucs => "from each point's Cam16Jmh: Cam16UcsJmh (vs J' = 1.7J/(1+0.007J), M' = ln(1+0.0228M)/0.0228), back to Cam16Jmh, Cam16UcsJab (vs a' = M'cos h, b' = M'sin h; from UcsJmh and directly from Jmh), back to Cam16UcsJmh and to Cam16Jmh",
+        Sub::WhiteJ => "the adopted white of every set of viewing conditions (as reported by WhitePointParameter::into_xyz): J = 100",
+    }
+}
+
+fn run_float<T: Cam>(ctx: &Ctx, conds: &[CondSpec], cols: &[Colour], ax: &Axes, total: &mut Collector) {
+    let enabled = sub_enabled::<T>(ctx);
+    let want_vector = ctx.wants(&format!("published-vector/{}", T::NAME));
+    if !enabled.iter().any(|e| *e) && !want_vector {
+        return;
+    }
+    let space = format!("space/{}", T::NAME);
+    if enabled.iter().any(|e| *e) {
+        let parts = pv::par::map_chunks(conds.len(), |i| run_cond::<T>(&conds[i], cols, enabled, ctx.seed));
+        let mut l = Local::default();
+        for (c, ll) in parts {
+            total.merge(c);
+            l.merge(ll);
+        }
+        total.add(&space, l.states, l.trans, 0, l.nontrivial);
+        total.exhaustive(
+            &space,
+            true,
+            &format!(
+                "{} viewing conditions = white point {{StaticWp<D65>, StaticWp<D50>, dynamic D65, E, A}} × L_A {:?} × Y_b {:?} × surround {:?} × discounting {:?}; × ({} lattice colours [9³ (thorough 17³) sRGB grid images, 4 near-black, 56 linear-sRGB points with components in {{-0.2, 0, 0.5, 1.2}} outside [0,1], Rec.2020 primaries, 124 points of the XYZ cube {{0,.3,.6,.9,1.2}}³] + the adopted white, duplicates in {} removed); every palette operation of the property executed at every point",
+                conds.len(),
+                ax.la,
+                ax.yb,
+                ax.sur,
+                ax.disc,
+                cols.len(),
+                T::NAME
+            ),
+        );
+        for (i, name) in SUBS.iter().enumerate() {
+            if enabled[i] {
+                let s = format!("{name}/{}", T::NAME);
+                total.add(&s, 0, 0, l.traces[i], 0);
+                total.exhaustive(&s, true, bound_text([Sub::Roundtrip, Sub::Black, Sub::PartialEq, Sub::Baked, Sub::IntoFull, Sub::Interconvert, Sub::Forward, Sub::Ucs, Sub::WhiteJ][i]));
+            }
+        }
+        if !l.fail_conds.is_empty() {
+            let mut fc = json!({});
+            for (i, (sig, classes)) in l.fail_conds.iter().enumerate() {
+                let v: Vec<&String> = classes.iter().collect();
+                if i < 60 {
+                    println!("failing-conditions signature={sig} classes={v:?}");
+                }
+                fc[sig] = json!(v);
+            }
+            total.note(&format!("failing-condition-classes/{}", T::NAME), fc);
+        }
+        let mut maxima = json!({});
+        for ((s, m, cl), v) in &l.maxima {
+            maxima[format!("{}/{m}/{cl}", SUBS[*s])] = pv::report::fnum(*v);
+        }
+        total.note(&format!("raw-error-maxima/{}", T::NAME), maxima);
+        total.note(
+            &format!("domain/{}", T::NAME),
+            json!({"points": l.states, "black": l.black, "outside the real-valued domain of the published equations (A <= 0 or t-denominator <= 0): no-panic, partial-eq-full and baked-vs-unbaked only": l.outside_domain, "cancellation kappa > 50 (boundary of the domain): same": l.boundary, "fully checked": l.states - l.black - l.outside_domain - l.boundary, "of these with a negative adapted cone response (sign branch of the compression)": l.negative_cone, "of these chromatic (reference C > 1) = non-trivial": l.nontrivial}),
+        );
+    }
+    if want_vector {
+        let s = format!("published-vector/{}", T::NAME);
+        let (tr, tv) = checks::check_vector::<T>(total);
+        total.add(&s, 1, tr, tv, 1);
+        total.exhaustive(&s, true, "XYZ = (19.01, 20.00, 21.78)/100, white (95.05, 100, 108.88)/100 as a dynamic white point, L_A = 318.31, Y_b = 0.20, Average, Auto: J, C, h, Q, M, s to the 4 published decimals (f32: 2e-3)");
+    }
+}
+
+fn bits(v: &Value) -> Option<u64> {
+    u64::from_str_radix(v.as_str()?.trim_start_matches("0x"), 16).ok()
+}
+
+fn parse_sur(v: &Value) -> Option<Sur> {
+    Some(match v["kind"].as_str()? {
+        "Dark" => Sur::Dark,
+        "Dim" => Sur::Dim,
+        "Average" => Sur::Average,
+        "Percent" => Sur::Percent(f64::from_bits(bits(&v["bits"])?)),
+        _ => return None,
+    })
+}
+fn parse_disc(v: &Value) -> Option<Disc> {
+    Some(match v["kind"].as_str()? {
+        "Auto" => Disc::Auto,
+        "Custom" => Disc::Custom(f64::from_bits(bits(&v["bits"])?)),
+        _ => return None,
+    })
+}
+
+fn replay_t<T: Cam>(case: &Value, c: &mut Collector) -> Option<()> {
+    if case["sub"].as_str() == Some("published-vector") {
+        checks::check_vector::<T>(c);
+        return Some(());
+    }
+    let sel = WpSel::from_name(case["wp"].as_str()?)?;
+    let cd = &case["cond"];
+    let spec = CondSpec { la: f64::from_bits(bits(&cd["la_bits"])?), yb: f64::from_bits(bits(&cd["yb_bits"])?), sur: parse_sur(&cd["surround"])?, disc: parse_disc(&cd["discounting"])?, sel };
+    let xb = case["xyz_bits"].as_array()?;
+    let x = [T::from_bits64(bits(&xb[0])?), T::from_bits64(bits(&xb[1])?), T::from_bits64(bits(&xb[2])?)];
+    let class: &'static str = ["black", "in-srgb", "near-black", "outside-srgb", "xyz-cube", "adopted-white"].into_iter().find(|k| Some(*k) == case["class"].as_str())?;
+    let mut cond = cond_for::<T>(&spec);
+    let Some(subj) = make_subject::<T>(&spec, &cond, c) else { return Some(()) };
+    cond.white = [subj.white[0].to64(), subj.white[1].to64(), subj.white[2].to64()];
+    let refp = oracle::params(&cond);
+    let pt = Pt { cond: &cond, sel, refp: &refp, x, class };
+    let mut l = Local::default();
+    checks::check_point(&pt, &subj, c, &mut l, 0);
+    let x64 = [x[0].to64(), x[1].to64(), x[2].to64()];
+    let r = oracle::forward(&refp, x64);
+    println!("{} {} {:?}: XYZ = {:?} ({})", T::NAME, sel.name(), spec, x64, class);
+    println!("  reference parameters: {:?}", refp);
+    println!("  reference [J,C,h,Q,M,s] = {:?}  in_domain = {}  kappa = {}", r.attrs(), r.in_domain(), r.kappa);
+    if let Ok(o) = pv::catch(|| (subj.run)(x)) {
+        println!("  Cam16::from_xyz [J,C,h,Q,M,s] = {:?}", o.full);
+        println!("  Cam16::into_xyz = {:?}", o.back_full);
+        for i in 0..6 {
+            println!("  {}: from_xyz = {:?}  into_xyz = {:?}  into_full = {:?}", subject::PARTIALS[i], o.part[i], o.back[i], o.into_full[i]);
+        }
+    }
+    Some(())
+}
+
 fn main() {
-    eprintln!("C16: check not built yet");
-    std::process::exit(3);
+    pv::main_guard(real_main)
+}
+
+fn real_main() -> i32 {
+    let (ctx, mode) = Ctx::from_args("C16");
+    if let Err(e) = oracle::selftest() {
+        eprintln!("MACHINERY-FAILURE: {e}");
+        return 3;
+    }
+    if let Mode::Replay(rep) = mode {
+        let mut c = Collector::new();
+        let case = &rep["case"];
+        let ok = if case["float"].as_str() == Some("f64") { replay_t::<f64>(case, &mut c) } else { replay_t::<f32>(case, &mut c) };
+        if ok.is_none() {
+            eprintln!("replay: malformed case");
+            return 3;
+        }
+        return ctx.finish_replay(c);
+    }
+    let ax = axes(ctx.tier);
+    let conds = conditions(&ax);
+    let cols = colours(ctx.tier);
+    let mut total = Collector::new();
+    run_float::<f64>(&ctx, &conds, &cols, &ax, &mut total);
+    run_float::<f32>(&ctx, &conds, &cols, &ax, &mut total);
+    total.note("tolerance", json!(checks::TOL_NOTE));
+    total.note("reference-validation", json!("in this run the f64 reference reproduced the published vector (J = 41.7312, C = 0.1034, h = 217.0680, s = 2.3450, Q = 195.3717, M = 0.1074) to 4 decimals and palette's five unit-test expectations (cam16/full.rs: #5588cc, white, red, green, blue under D65, L_A = 40, Y_b = 0.2, average) to the epsilons used there; a disagreement exits 3"));
+    total.note("units", json!("palette Xyz/white point: Y = 1 for white (×100 internally); background_luminance relative to white = 1; Surround::Percent 0 % dark – 10 % dim – 20 % average, clamped; Discounting::Custom clamped to [0,1] — the reference applies the same documented clamps"));
+    ctx.finish(
+        total,
+        "model_checking",
+        "a state = one (viewing conditions, white-point parameter type and value, XYZ bit pattern, float type); transitions = palette calls on it (Parameters::bake, Cam16::from_xyz ×2, 7 × into_xyz, 6 × from_xyz/from_full/into_full, 36 × from_full→into_full, 6 UCS conversions); traces = comparisons with the reference model / the exact relations; non-trivial = non-black points inside the model's domain whose reference chroma exceeds 1",
+        &[
+            "valid viewing conditions: L_A > 0, 0 < Y_b <= Y_w, any surround/discounting value (clamped as documented)",
+            "intermediate surrounds interpolate (F, c, N_c) linearly between the published dark/dim/average rows on palette's documented 0-10-20 % scale",
+            "the published equations are real-valued only for A > 0 and a positive t-denominator; XYZ-cube points outside that domain (imaginary stimuli) or with cancellation kappa > 50 are only required not to panic and to keep partial = full",
+            "the adopted white is the value palette reports through WhitePointParameter::into_xyz (the correctness of the white-point constants themselves is C14)",
+            "XYZ tolerances are relative to white Y = 1 and scale with the size of the colour plus an absolute floor (near-black is ill-conditioned in absolute terms only)",
+        ],
+    )
 }
